@@ -560,27 +560,18 @@ pub fn expect_file(doc: &Document, r: &Rendered, facts: &ProjectFacts) -> FileEx
                 }
             }
         }
-        // 'mixed': exactly one Error at the first method whose with/without status differs from
-        // an earlier one. Whether repeated-name methods take part is not fixed by the statement:
-        // if the two readings differ, the extent is left open.
-        let mixed_at = |ms: &[&Method]| -> Option<usize> {
-            let first = ms.first().map(|m| code_of(m).is_some())?;
-            ms.iter().position(|m| code_of(m).is_some() != first)
-        };
-        let a = mixed_at(&firsts).map(|i| firsts[i]);
-        let b = mixed_at(&methods).map(|i| methods[i]);
-        let same = a.map(|m| m.name_tok) == b.map(|m| m.name_tok);
-        for (k, cand) in [a, b].into_iter().enumerate() {
-            if let Some(m) = cand {
-                if same && k == 1 {
-                    break;
-                }
+        // 'mixed': the sentence scopes it "among methods with distinct names" (first occurrences):
+        // exactly one Error at the first such method whose with/without status differs from an
+        // earlier one
+        let first = firsts.first().map(|m| code_of(m).is_some());
+        if let Some(first) = first {
+            if let Some(m) = firsts.iter().find(|m| code_of(m).is_some() != first) {
                 cx.out.recs.push(Rec {
                     class: "mixed-transact-codes".into(),
                     sev: Sev::Error,
                     anchor: Loc::within(r.start(m.first_tok), r.end(m.semi_tok)),
                     related: None,
-                    optional: !same,
+                    optional: false,
                     alt: None,
                 });
             }
